@@ -54,6 +54,19 @@ const (
 	kNilBytes     = "nil-bytes-conversion"
 	kAppendArgs   = "append-args-see-appended"
 	kNestedRecov  = "recover-in-nested-deferred-call"
+	// side notes of the round-4 readers (side.go)
+	kGoto          = "goto-ignored"
+	kCompoundIdx   = "compound-assign-index-twice"
+	kTupleOrder    = "tuple-assign-order"
+	kAppendSelf    = "append-self-spread"
+	kBytesLitOrder = "bytes-literal-eval-order"
+	kLambdaOrder   = "lambda-emit-order"
+	kRangeMapDel   = "range-map-delete"
+	kDeleteNilMap  = "delete-nil-map"
+	kNamedRedecl   = "named-result-redeclare"
+	kNilMapRead    = "nil-map-read"
+	kAppendNil     = "append-nil-slice"
+	kLitOrder      = "literal-eval-order"
 )
 
 type vinfo struct {
@@ -153,6 +166,11 @@ type gen struct {
 	f       *fctx
 	feat    map[string]bool
 	stmts   int
+	// gotoProg: this program may contain goto statements; tickProg: it may call the side-effecting helper tick
+	// (tickV is the counter g9 once the helper has been used), see side.go
+	gotoProg bool
+	tickProg bool
+	tickV    *vinfo
 }
 
 func (g *gen) mark(s string) { g.feat[s] = true }
@@ -272,7 +290,9 @@ func (g *gen) visible() []*vinfo {
 		for _, v := range g.globals {
 			if !seen[v.name] {
 				seen[v.name] = true
-				out = append(out, v)
+				if !v.hidden {
+					out = append(out, v)
+				}
 			}
 		}
 	}
